@@ -6,7 +6,7 @@
    (None only when out of fuel); `expand` repeats each block value over the block's items;
    `mean_sv` = solve SMean is the weighted mean (the model of scipy's isotonic_regression). *)
 From Coq Require Import Permutation.
-From V Require Import lib.Tree model.C15 proofs.C15 proofs.C15_mean proofs.C15_quant proofs.C15_perm proofs.C15_maxmin.
+From V Require Import lib.Tree model.C15 proofs.C15 proofs.C15_mean proofs.C15_quant proofs.C15_perm proofs.C15_maxmin proofs.C15_order.
 Open Scope list_scope.
 Open Scope Q_scope.
 
@@ -128,6 +128,25 @@ Theorem C15_pav_mean_is_maxmin : forall (l : list item) (i : nat), Forall (fun i
 Proof. exact pav_mean_maxmin. Qed.
 Print Assumptions C15_pav_mean_is_maxmin.
 
+(* the fit depends on the forecasts only through their ORDER: for every strictly increasing relabelling phi of the forecast
+   values the tidy step commutes with it ... *)
+Theorem C15_tidy_commutes_with_forecast_relabelling : forall phi : Q -> Q,
+  (forall a b, a < b -> phi a < phi b) -> (forall a b, a == b -> phi a == phi b) ->
+  forall l : list triple, tsort (map (remap_f phi) l) = map (remap_f phi) (tsort l).
+Proof. exact tsort_remap. Qed.
+Print Assumptions C15_tidy_commutes_with_forecast_relabelling.
+
+(* ... and the summary the function returns (unique forecasts, counts, fitted values; any functional / solver) is the
+   relabelled summary: same counts, same values.  An infinite forecast -- for the code the largest / smallest explanatory
+   value -- may therefore stand for ANY rational beyond the finite ones (what the entries c15_fit / c15_func / c15_maxmin do) *)
+Theorem C15_fit_depends_on_forecast_order_only : forall phi : Q -> Q,
+  (forall a b, a < b -> phi a < phi b) -> (forall a b, a == b -> phi a == phi b) ->
+  forall (trunc : bool) (f : functional) (l : list triple),
+  let l' := map (remap_f phi) l in
+  uniq (map tf (tsort l')) (do_ir trunc f (tsort l')) = map (relabel phi) (uniq (map tf (tsort l)) (do_ir trunc f (tsort l))).
+Proof. exact summary_remap. Qed.
+Print Assumptions C15_fit_depends_on_forecast_order_only.
+
 (* non-vacuity *)
 Example C15_ex_mean : map Qred (pav mean_sv [(3, 1); (1, 1); (2, 1); (5, 1)]) = [2; 2; 2; 5].
 Proof. vm_compute. reflexivity. Qed.
@@ -136,3 +155,9 @@ Example C15_ex_merge_order :       (* solver a[0]-len(a): the run [4;4;1] is abs
 Proof. vm_compute. reflexivity. Qed.
 Example C15_ex_weights : Forall (fun i : item => 0 < snd i) [(3, 2); (1, 1)] /\ map Qred (pav mean_sv [(3, 2); (1, 1)]) = [7 # 3; 7 # 3].
 Proof. split; [repeat constructor; reflexivity | vm_compute; reflexivity]. Qed.
+
+Example C15_ex_relabel :          (* x |-> 2x + 7 is strictly increasing: same counts and values at the relabelled forecasts *)
+  let l := [(1, 3, 1); (0, 1, 1); (1, 0, 1); (5, 2, 1)] in
+  uniq (map tf (tsort (map (remap_f (fun x => 2 * x + 7)) l))) (do_ir false FMean (tsort (map (remap_f (fun x => 2 * x + 7)) l)))
+  = map (relabel (fun x => 2 * x + 7)) (uniq (map tf (tsort l)) (do_ir false FMean (tsort l))).
+Proof. vm_compute. reflexivity. Qed.
